@@ -9,6 +9,7 @@ pub mod c03;
 pub mod c09;
 pub mod c10;
 pub mod c11;
+pub mod c12;
 pub mod c13;
 pub mod c14;
 pub mod c15;
@@ -33,6 +34,7 @@ pub fn meta(prop: &str) -> PropMeta {
         "C09" => c09::META,
         "C10" => c10::META,
         "C11" => c11::META,
+        "C12" => c12::META,
         "C13" => c13::META,
         "C14" => c14::META,
         "C15" => c15::META,
@@ -44,7 +46,7 @@ pub fn meta(prop: &str) -> PropMeta {
 }
 
 pub fn known(prop: &str) -> bool {
-    matches!(prop, "C01" | "C02" | "C03" | "C06" | "C07" | "C08" | "C09" | "C10" | "C11" | "C13" | "C14" | "C15" | "C16" | "C17" | "C18")
+    matches!(prop, "C01" | "C02" | "C03" | "C06" | "C07" | "C08" | "C09" | "C10" | "C11" | "C12" | "C13" | "C14" | "C15" | "C16" | "C17" | "C18")
 }
 
 pub fn run(ctx: &mut Ctx) {
@@ -58,6 +60,7 @@ pub fn run(ctx: &mut Ctx) {
         "C09" => c09::run(ctx),
         "C10" => c10::run(ctx),
         "C11" => c11::run(ctx),
+        "C12" => c12::run(ctx),
         "C13" => c13::run(ctx),
         "C14" => c14::run(ctx),
         "C15" => c15::run(ctx),
@@ -78,6 +81,7 @@ pub fn replay(ctx: &mut Ctx, stage: &str, case: &Value) -> Check {
         "C09" => c09::replay(ctx, stage, case),
         "C10" => c10::replay(ctx, stage, case),
         "C11" => c11::replay(ctx, stage, case),
+        "C12" => c12::replay(ctx, stage, case),
         "C13" => c13::replay(ctx, stage, case),
         "C14" => c14::replay(ctx, stage, case),
         "C15" => c15::replay(ctx, stage, case),
